@@ -40,10 +40,10 @@ type absVal struct {
 }
 
 func avC(c constant.Value) *absVal { return &absVal{k: avConst, c: c} }
-func avInt(i int64) *absVal       { return avC(constant.MakeInt64(i)) }
-func avBool(b bool) *absVal       { return avC(constant.MakeBool(b)) }
-func avSymOf(v ssa.Value) *absVal { return &absVal{k: avSym, sym: v} }
-func avTag(t string) *absVal      { return &absVal{k: avSym, tag: t} }
+func avInt(i int64) *absVal        { return avC(constant.MakeInt64(i)) }
+func avBool(b bool) *absVal        { return avC(constant.MakeBool(b)) }
+func avSymOf(v ssa.Value) *absVal  { return &absVal{k: avSym, sym: v} }
+func avTag(t string) *absVal       { return &absVal{k: avSym, tag: t} }
 
 func (a *absVal) String() string {
 	if a == nil {
